@@ -38,6 +38,8 @@ structure TreeI (root : VK) (reqs0 : ReqMap) (first : Bool) (s : State) : Prop w
   same : ∀ x ∈ s.created, ∀ t', (t' ∈ s.todo ∨ ∃ id f, (id, f, t') ∈ s.done) → t'.key = x.2.2.key → t' = x.2.2
   doneIds : (s.done.map (·.1)).Nodup
   rootExcl : ∀ x ∈ s.done, x.1 = 0 → x.2.2.exclusions = none
+  popped : ∀ x ∈ s.created, x.2.2 ∈ s.todo ∨ ∃ f, (x.1, f, x.2.2) ∈ s.done
+  rootDone : first = false → ∃ f t, (0, f, t) ∈ s.done
   init : first = true → s = initState root reqs0
   todoPos : first = false → ∀ t ∈ s.todo, ∃ id, s.concreteVersions.lookup t.key = some id ∧ id ≠ 0
 
@@ -52,6 +54,9 @@ structure TreeJ (first : Bool) (cur : Todo) (curId : Nat) (s : State) : Prop whe
     t'.key = x.2.2.key → t' = x.2.2
   doneIds : (s.done.map (·.1)).Nodup
   rootExcl : ∀ x ∈ s.done, x.1 = 0 → x.2.2.exclusions = none
+  popped : ∀ x ∈ s.created, x.2.2 ∈ s.todo ∨ (x.2.2 = cur ∧ x.1 = curId) ∨ ∃ f, (x.1, f, x.2.2) ∈ s.done
+  rootDone : first = false → ∃ f t, (0, f, t) ∈ s.done
+  curRoot : first = true → curId = 0
   curExcl : curId = 0 → cur.exclusions = none
   todoPos : ∀ t ∈ s.todo, ∃ id, s.concreteVersions.lookup t.key = some id ∧ id ≠ 0
 
@@ -64,7 +69,7 @@ theorem imports_exclusions {u : Universe} {vk : VK} {o : ImportsOpt} {imps : Lis
 theorem tree_pop {root : VK} {reqs0 : ReqMap} {first : Bool} {s : State} {cur : Todo} {rest : List Todo}
     (hx : TreeI root reqs0 first s) (htodo : s.todo = cur :: rest) :
     TreeJ first cur (curIdOf s cur) { s with todo := rest } := by
-  refine ⟨?_, hx.sealed, hx.cover, hx.inj, hx.doneBound, ?_, ?_, hx.doneIds, hx.rootExcl, ?_, ?_⟩
+  refine ⟨?_, hx.sealed, hx.cover, hx.inj, hx.doneBound, ?_, ?_, hx.doneIds, hx.rootExcl, ?_, hx.rootDone, ?_, ?_, ?_⟩
   · intro x hxm
     exact (hx.crt x hxm).mono (fun y hy => by simp [hy]) (fun _ h => h) (fun _ _ h => h)
   · have := hx.keysNodup
@@ -75,6 +80,23 @@ theorem tree_pop {root : VK} {reqs0 : ReqMap} {first : Bool} {s : State} {cur : 
     · exact .inl (by simp [htodo, ht'])
     · exact .inl (by simp [htodo])
     · exact .inr ht'
+  · intro x hxm
+    rcases hx.popped x hxm with hp | hp
+    · rw [htodo] at hp
+      simp only [List.mem_cons] at hp
+      rcases hp with hp | hp
+      · refine .inr (.inl ⟨hp, ?_⟩)
+        have hb := (hx.crt x hxm).bound
+        rw [hp] at hb
+        exact (curIdOf_eq hb).symm
+      · exact .inl hp
+    · exact .inr (.inr hp)
+  · intro hf
+    have := hx.init hf
+    subst this
+    simp only [initState, List.cons.injEq] at htodo
+    obtain ⟨rfl, _⟩ := htodo
+    simp [curIdOf, initState, lookup_cons_eq]
   · cases first with
     | true =>
       have := hx.init rfl
@@ -101,7 +123,7 @@ theorem tree_fin {root : VK} {reqs0 : ReqMap} {first : Bool} {s : State} {cur : 
     (hwj : WFJ root cur curId s) (hy : TreeJ first cur curId s) :
     TreeI root reqs0 false { s with done := s.done ++ [(curId, first, cur)] } := by
   have hkn := hy.keysNodup
-  refine ⟨?_, hy.sealed, hy.cover, hy.inj, ?_, ?_, ?_, ?_, ?_, by simp, fun _ => hy.todoPos⟩
+  refine ⟨?_, hy.sealed, hy.cover, hy.inj, ?_, ?_, ?_, ?_, ?_, ?_, ?_, by simp, fun _ => hy.todoPos⟩
   · intro x hxm
     exact (hy.crt x hxm).mono (fun _ h => h) (fun _ h => h) (fun _ _ h => h)
   · intro x hxm
@@ -138,6 +160,17 @@ theorem tree_fin {root : VK} {reqs0 : ReqMap} {first : Bool} {s : State} {cur : 
     rcases hxm with hxm | rfl
     · exact hy.rootExcl x hxm h0
     · exact hy.curExcl h0
+  · intro x hxm
+    rcases hy.popped x hxm with hp | ⟨hp1, hp2⟩ | ⟨f, hp⟩
+    · exact .inl hp
+    · exact .inr ⟨first, by simp [hp1, hp2]⟩
+    · exact .inr ⟨f, by simp [hp]⟩
+  · intro _
+    cases first with
+    | true => exact ⟨true, cur, by simp [hy.curRoot rfl]⟩
+    | false =>
+      obtain ⟨f, t, hft⟩ := hy.rootDone rfl
+      exact ⟨f, t, by simp [hft]⟩
 
 theorem tree_step {u : Universe} {mgt : List (PackageKey × Bytes)} {root : VK} {first : Bool} {cur : Todo}
     {curId : Nat} {imps : List Dep} {d : Dep} {s s' : State}
@@ -163,11 +196,11 @@ theorem tree_step {u : Universe} {mgt : List (PackageKey × Bytes)} {root : VK} 
     exact ⟨fun x hxm => (hy.crt x hxm).mono (fun _ h => h) (fun _ h => by simpa using h) (fun _ _ h => h),
       fun x hxm hi e he => hy.sealed x hxm hi e (by simpa using he),
       fun id h0 hl => hy.cover id h0 (by simpa using hl),
-      hy.inj, hy.doneBound, hy.keysNodup, hy.same, hy.doneIds, hy.rootExcl, hy.curExcl, hy.todoPos⟩
+      hy.inj, hy.doneBound, hy.keysNodup, hy.same, hy.doneIds, hy.rootExcl, hy.popped, hy.rootDone, hy.curRoot, hy.curExcl, hy.todoPos⟩
   | edge mv id g' _ _ _ hadd =>
     obtain ⟨_, _, rfl⟩ := addEdge_some hadd
     refine ⟨fun x hxm => (hy.crt x hxm).mono (fun _ h => h) (fun _ h => by simp [h]) (fun _ _ h => h),
-      ?_, hy.cover, hy.inj, hy.doneBound, hy.keysNodup, hy.same, hy.doneIds, hy.rootExcl, hy.curExcl, hy.todoPos⟩
+      ?_, hy.cover, hy.inj, hy.doneBound, hy.keysNodup, hy.same, hy.doneIds, hy.rootExcl, hy.popped, hy.rootDone, hy.curRoot, hy.curExcl, hy.todoPos⟩
     intro x hxm hi e he
     simp only [List.mem_append, List.mem_singleton] at he
     rcases he with he | rfl
@@ -187,7 +220,7 @@ theorem tree_step {u : Universe} {mgt : List (PackageKey × Bytes)} {root : VK} 
     have hfresh : ∀ k id, s.concreteVersions.lookup k = some id →
         k ≠ { pk := depKey d, vk := { name := d.name, version := mv } } := by
       intro k id h hk; rw [hk, hcv] at h; cases h
-    refine ⟨?_, ?_, ?_, ?_, ?_, ?_, ?_, hy.doneIds, hy.rootExcl, hy.curExcl, ?_⟩
+    refine ⟨?_, ?_, ?_, ?_, ?_, ?_, ?_, hy.doneIds, hy.rootExcl, ?_, hy.rootDone, hy.curRoot, hy.curExcl, ?_⟩
     · -- crt
       intro x hxm
       simp only [List.mem_append, List.mem_singleton] at hxm
@@ -266,6 +299,15 @@ theorem tree_step {u : Universe} {mgt : List (PackageKey × Bytes)} {root : VK} 
         · rfl
         · exact absurd hk (hfresh _ _ hwj.2)
         · exact absurd hk (hfresh _ _ (hy.doneBound _ ht'))
+    · -- popped
+      intro x hxm
+      simp only [List.mem_append, List.mem_singleton] at hxm
+      rcases hxm with hxm | rfl
+      · rcases hy.popped x hxm with hp | hp | hp
+        · exact .inl (by simp [hp])
+        · exact .inr (.inl hp)
+        · exact .inr (.inr hp)
+      · exact .inl (by simp)
     · -- todoPos
       intro t ht
       simp only [List.mem_append, List.mem_singleton] at ht
@@ -286,7 +328,7 @@ theorem tree_loop {u : Universe} {mgt : List (PackageKey × Bytes)} {root : VK} 
     (fun first cur curId ds s _ hwj hy => tree_fin hwj hy)
     fuel true (initState root reqs0) s (wf_init root reqs0)
     ⟨by simp [initState], by simp [initState], by simp [initState]; omega, ?_, by simp [initState], by simp [initState],
-      by simp [initState], by simp [initState], by simp [initState], fun _ => rfl, by simp⟩ h
+      by simp [initState], by simp [initState], by simp [initState], by simp [initState], by simp, fun _ => rfl, by simp⟩ h
   · obtain ⟨f, hx, _, _⟩ := this
     exact ⟨f, hx⟩
   · intro k1 k2 id h1 h2
